@@ -589,7 +589,21 @@ def gen_fault_scripts(tier, seed, variant):
     out = []
     for i in range(n):
         out.append(gen_map.make_script(rng, f"f{seed}_{i}", faults=rng.choice([0.15, 0.3, 0.5]), clone_ops=(i % 3 == 0)))
+    # collision runs at exact capacity with a fault armed before a fraction of the steps
+    # (the in-place rehash and its unwind guard are reached from insert / entry / reserve here)
+    for i in range(n // 3):
+        out.append(arm_script(rng, gen_map.make_run_script(rng, f"fu{seed}_{i}"), rng.choice([0.1, 0.25])))
     return "".join(out)
+
+def arm_script(rng, blk, p):
+    lines = blk.rstrip("\n").split("\n")
+    res = []
+    for l in lines:
+        if not (l.startswith("===") or l.startswith("kind") or l.startswith("hash")) and rng.random() < p:
+            a = rng.choice(["hashpanic_nth", "hashpanic_nth", "hashpanic_nth", "eqpanic_nth", "droppanic_nth"])
+            res.append(f"arm {a} {rng.randrange(0, 14)}")
+        res.append(l)
+    return "\n".join(res) + "\n"
 
 def gen_calldep_scripts(tier, seed, variant):
     rng = random.Random(seed)
@@ -609,7 +623,9 @@ def gen_calldep_scripts(tier, seed, variant):
 def gen_table_scripts(tier, seed, variant):
     rng = random.Random(seed)
     n = 48 if tier == "quick" else 160
-    return "".join(gen_table.make_script(rng, f"t{seed}_{i}") for i in range(n))
+    out = [gen_table.make_script(rng, f"t{seed}_{i}") for i in range(n)]
+    out += [gen_table.make_run_script(rng, f"v{seed}_{i}") for i in range(n // 2)]
+    return "".join(out)
 
 def gen_layout_scripts(tier, seed, variant):
     """C02: every element layout (sizes 0,1,2,24,32,200; alignment up to 64), maps and tables,
